@@ -60,3 +60,33 @@ func init() {
 		thorough:      []buildSpec{plain(16)},
 	}
 }
+
+func init() {
+	props["C08"] = propSpec{
+		level: "exploration",
+		rule: "seeded broker runs: back-end {channel, unlimited Queue, unlimited Deque, bounded Deque, bounded Queue, LIFO} x ParallelDispatch x WorkerPoolSize {0,1,2,4} x BufferSize {0,1,8} x 1-4 publishers x 1-400 messages (unique ids) x " +
+			"subscribers {static, late joiners, early leavers} with speed profiles x delay injected between pop and dispatch (wrapping distributor) x GOMAXPROCS; oracle: every configuration - received subset of published, no id twice; " +
+			"lossless configurations (BufferSize 0; channel / unlimited queue / unlimited deque) - every message whose Publish was called after a subscriber's Subscribe returned is received by it (decided at quiescence when missing); " +
+			"single dispatch worker - every subscriber preserves each publisher's order and all subscribers agree on one order. distinct_nontrivial = distinct configurations of runs with >= 2 subscribers, >= 2 publishers and >= 2 publisher interleavings in the witness order",
+		assumptions: append([]string{"early leavers are checked for the universal clauses only (DESIGN 7d)",
+			"a Deque-backed broker with >= 2 dispatch workers never becomes quiescent (idle dispatchers signal each other): for it only met expectations are decided, unmet ones are counted as skipped"}, commonAssumptions...),
+		floorEvals:    100,
+		floorDistinct: 20,
+		quick:         []buildSpec{plain(8)},
+		thorough:      []buildSpec{plain(16), race(4)},
+	}
+	props["C09"] = propSpec{
+		level: "exploration",
+		rule: "broker scenarios over every back-end (channel, Queue, Deque, bounded, LIFO) and BrokerOptions, one at a time per process, with a counting distributor (accepted/popped): " +
+			"(a) progress - bursts {1,2,10,100} x 1-4 rounds x 1-3 publishers while 1-3 subscribers keep reading: publishers return, accepted==popped, depth 0 and every popped message reaches every subscriber (unmet => decided at quiescence); " +
+			"(b) shutdown - stop point {idle, mid-dispatch with a non-reading subscriber, mid-publish, backlog} x {Stop, cancel parent} x Wait started before/after: Wait returns, pending calls return once their context ends, no broker goroutine in the census, " +
+			"Publish/Subscribe/Unsubscribe/Stats return after their context is cancelled; (c) 20-80 Stats calls whose context ends between request and reply (a context that flips after its first Done() call, and racing cancels) followed by a health probe; " +
+			"(d) hook: Stop/cancel landing between the idle dispatcher's predicate check and cond.Wait. distinct_nontrivial = distinct (mode, back-end, options, stop point/how/burst, GOMAXPROCS) decided",
+		assumptions: append([]string{"scenarios use no timers; verdicts on unmet expectations only at quiescence",
+			"Deque-backed brokers with >= 2 dispatch workers never become quiescent: unmet expectations there are counted as skipped"}, commonAssumptions...),
+		floorEvals:    100,
+		floorDistinct: 40,
+		quick:         []buildSpec{plain(8)},
+		thorough:      []buildSpec{plain(16)},
+	}
+}
